@@ -1,7 +1,7 @@
 """C02 — signatures and parameter digests cover the specified bytes (structural part). DESIGN §4 C02."""
 import ast
 
-from .common import ctx, returns, calls_in_ctx, reach_from_succ, site, srcs_text, const_bool
+from .common import ctx, returns, calls_in_ctx, reach_from_succ, site, srcs_text, const_bool, comes_from, expr_texts, full_text
 from ..flow import callee_attr
 from ..linexpr import lin, NotLinear
 from ..loader import AnalysisError, norm
@@ -81,7 +81,7 @@ def run(R):
     R.ob('C02.ORD.1', 'SignatureValueField: encode appends wire[start:offset] before writing its own TLV; parse covers up to the start of the SignatureValue TLV')
     ei = ctx(R, TM + '.SignatureValueField.encode_into')
     pf = ctx(R, TM + '.SignatureValueField.parse_from')
-    apps = [(n, c) for (n, c) in calls_in_ctx(ei, attr='append') if ast.unparse(c.func.value) == 'sig_cover_part']
+    apps = [(n, c) for (n, c) in calls_in_ctx(ei, attr='append') if comes_from(ei, n, c.func.value, 'covered_part.get_arg(markers)')]
     adv = [n for n in ei.cfg.nodes if n.kind == 'stmt' and isinstance(n.ast, ast.AugAssign) and ast.unparse(n.ast.target) == 'offset']
     inst = ei.qual + ' :: covered slice'
     if len(apps) != 1:
@@ -93,7 +93,7 @@ def run(R):
         R.fail('C02.ORD.1', inst, ei.qual, ac, 'the covered slice is taken after offset moved into the SignatureValue TLV (the signature would cover its own header)', site(ei, ac))
     else:
         R.ok('C02.ORD.1', inst, site(ei, ac))
-    apps = [(n, c) for (n, c) in calls_in_ctx(pf, attr='append') if ast.unparse(c.func.value) == 'sig_cover_part']
+    apps = [(n, c) for (n, c) in calls_in_ctx(pf, attr='append') if comes_from(pf, n, c.func.value, 'covered_part.get_arg(markers)')]
     inst = pf.qual + ' :: covered slice'
     if len(apps) != 1:
         raise AnalysisError('SignatureValueField.parse_from: covered-part append not found')
@@ -113,7 +113,7 @@ def run(R):
     R.ob('C02.MPT.1', 'InterestNameField: every name component except the parameters digest is handed to the signer / verifier')
     npf = ctx(R, TM + '.InterestNameField.parse_from')
     lp = [n for n in npf.cfg.nodes if n.kind == 'for']
-    ap = [n for (n, c) in calls_in_ctx(npf, attr='append') if ast.unparse(c.func.value) == 'sig_cover_part' and ast.unparse(c.args[0]) == ast.unparse(lp[0].ast.target) if lp]
+    ap = [n for (n, c) in calls_in_ctx(npf, attr='append') if comes_from(npf, n, c.func.value, 'covered_part.get_arg(markers)') and ast.unparse(c.args[0]) == ast.unparse(lp[0].ast.target) if lp]
     dt = [t for t in npf.cfg.nodes if t.kind == 'test' and 'TYPE_PARAMETERS_SHA256' in ast.unparse(t.ast)]
     inst = npf.qual + ' :: covered components'
     if len(lp) != 1 or len(ap) != 1 or len(dt) != 1:
@@ -151,21 +151,23 @@ def run(R):
         raise AnalysisError('InterestPacketValue.encode: signature / digest steps not found')
     if not en.cfg.dominates(cs[0], dg[0]):
         probs.append(('the parameters digest is computed before the signature value is filled in', dg[0].ast))
-    dd = {nm: v for n in en.cfg.nodes for (nm, v) in en.cfg.defs_of(n) if isinstance(v, ast.AST)}
-    if ast.unparse(dd.get('digest_cover_end', ast.Constant(0))) != 'self._digest_cover_end.get_arg(markers) - shrink_size' or \
-            ast.unparse(dd.get('shrink_size', ast.Constant(0))) != 'self._shrink_len.get_arg(markers)':
+    # everything below is compared on fully inlined text (temporaries do not matter)
+    upd = [c for (n, c) in calls_in_ctx(en, attr='update')]
+    loops = [n for n in en.cfg.nodes if n.kind == 'for' and any(c in [x for x in ast.walk(n.ast)] for c in upd)]
+    hashed = full_text(en, loops[0].ast.iter) if loops else (full_text(en, upd[0].args[0]) if upd else '?')
+    enc = "super().encode(wire, offset, markers)"
+    want = (f'[memoryview({enc})[self._digest_cover_start.get_arg(markers):self._digest_cover_end.get_arg(markers) - self._shrink_len.get_arg(markers)]]')
+    if 'self._digest_cover_end.get_arg(markers) - self._shrink_len.get_arg(markers)' not in hashed:
         probs.append(('the digest range does not end at the end of the (shrunk) signature value', en.f.node))
-    if ast.unparse(dd.get('digest_covered_part', ast.Constant(0))) != '[wire_view[digest_cover_start:digest_cover_end]]':
-        probs.append(('the digest is not computed over wire[digest start:digest end]', en.f.node))
-    st = [n for n in en.cfg.nodes if n.kind == 'stmt' and isinstance(n.ast, ast.Assign) and ast.unparse(n.ast.targets[0]) == 'digest_buf[:]']
-    if len(st) != 1 or 'digest()' not in ast.unparse(st[0].ast.value) or ast.unparse(dd.get('digest_buf', ast.Constant(0))) != 'self._digest_buf.get_arg(markers)':
+    elif hashed != want:
+        probs.append((f'the digest is not computed over wire[digest start:digest end] of the encoded packet (it hashes {hashed})', en.f.node))
+    st = [n for n in en.cfg.nodes if n.kind == 'stmt' and isinstance(n.ast, ast.Assign) and isinstance(n.ast.targets[0], ast.Subscript)
+          and full_text(en, n.ast.targets[0].value) == 'self._digest_buf.get_arg(markers)']
+    if len(st) != 1 or 'digest()' not in full_text(en, st[0].ast.value):
         probs.append(('the digest is not written into the digest component of the name', en.f.node))
-    nd = [t for t in en.cfg.nodes if t.kind == 'test' and '_need_digest' in ast.unparse(t.ast)]
+    nd = [t for t in en.cfg.nodes if t.kind == 'test' and '_need_digest' in full_text(en, t.ast)]
     if len(nd) != 1 or dg[0].id in en.cfg.reachable(removed_edges={(nd[0].id, True)}):
         probs.append(('the digest is computed although the Interest has no parameters', dg[0].ast))
-    wv = ast.unparse(dd.get('wire_view', ast.Constant(0)))
-    if wv != 'memoryview(ret)':
-        probs.append((f'the digest is computed over {wv}, not over the encoded packet', en.f.node))
     if probs:
         for (what, construct) in probs:
             R.fail('C02.ORD.2', inst, en.qual, construct if not isinstance(construct, ast.FunctionDef) else 'def encode', what, site(en, construct))
